@@ -56,6 +56,20 @@ func jsonPairs(it ap.Item, emit func(via string, out ap.Item, raw []byte, err er
 	if t.Kind() == reflect.Ptr {
 		t = t.Elem()
 	}
+	if iri, isIRI := it.(ap.IRI); isIRI {
+		// the IRI's own pair, fed the way encoding/json feeds it (escaping & < > as \u00XX)
+		var back ap.IRI
+		var raw []byte
+		err = safely(func() error {
+			var e error
+			if raw, e = json.Marshal(string(iri)); e != nil {
+				return e
+			}
+			return back.UnmarshalJSON(raw)
+		})
+		emit("type", back, raw, err)
+		return
+	}
 	if t.Kind() != reflect.Struct {
 		return
 	}
